@@ -20,7 +20,7 @@ echo "== demo on changed build"; bash ./demo.sh $WT/_b; echo "DEMO_MUT=$?"
 rm -rf $WT/_b
 cd /verif
 for c in $ID ${EXTRA_CHECKS}; do
-  echo "== check $c on changed tree"; VERIF_REPO=$WT VERIF_CACHE_KEEP=30 timeout 1800 ./check $c 2>&1 | grep -E "VIOLATION|KNOWN-FINDING|SPEC-DRIFT|CHECK-ERROR|^\[C" | cut -c1-400 | head -12; echo "CHECK_$c=${PIPESTATUS[0]}"
+  echo "== check $c on changed tree"; VERIF_REPO=$WT VERIF_CACHE_KEEP=40 VERIF_EVIDENCE_DIR=/tmp/seedev-$SFX timeout 2400 ./check $c 2>&1 | grep -E "VIOLATION|KNOWN-FINDING|SPEC-DRIFT|CHECK-ERROR|^\[C" | cut -c1-400 | head -12; echo "CHECK_$c=${PIPESTATUS[0]}"
 done
 git -C $WT checkout -q -- .
 echo DONE
